@@ -7,7 +7,11 @@ RULE = ("UPDATE ASTs drawn at random (conventional withdrawn/NLRI, MP_REACH/MP_U
         "extended-length and odd flag bits, 2- and 4-octet AS_PATH, End-of-RIB forms), turned into bytes by the PROVED encoder "
         "(extracted), then decoded by the extracted independent decoder and by rotonda (from_octets + explode_*); plus "
         "non-canonical-but-legal PDUs and a malformed stream (bit flips, byte edits, length edits, truncation, extension). "
-        "A case (1-3 PDUs) is non-trivial when at least one PDU yields at least one route; distinct = distinct case text")
+        "A case (1-3 PDUs) is non-trivial when at least one PDU yields at least one route; distinct = distinct case text. "
+        "Engine c04json: UPDATEs with the four community attributes (COMMUNITIES, EXTENDED, IPv6 EXTENDED, LARGE) over-weighted, in any "
+        "attribute order, repeated / empty / of a length that is no multiple of the member size, announcing 1-3 prefixes; the JSON serde "
+        "makes of each announced route's attribute map is reduced to (element kinds in order, sorted community octets) and compared with "
+        "BgpModel.json_shape; non-trivial there = the community list is not empty")
 TRUSTED_BASE = [
     "Coq 8.16.1 kernel (coqc; coqchk in thorough); no native_compute",
     "extraction with ExtrOcamlBasic only; OCaml driver oracle/{conv,c04_util,eng_c04,eng_c04enc,oracle}.ml (hex/text conversion, FNV-1a digest of the attribute blob)",
@@ -17,7 +21,7 @@ TRUSTED_BASE = [
 ]
 ASSUMPTIONS = [
     "the harness hands the explode path exactly one framed message (framing by BGP / BMP / MRT record length is C06's business); the three ingress units all call explode_announcements then explode_withdrawals and drop the whole UPDATE on an error of either - the harness composes them the same way",
-    "the attribute map of a route is observed as the raw attribute section it stores (length + FNV-1a 32 digest), the same bytes every downstream consumer (RIB, JSON serialiser, roto filters) iterates over",
+    "the attribute map of a route is observed as the raw attribute section it stores (length + FNV-1a 32 digest) and, in engine c04json, as the shape of its serde_json rendering (which elements, which communities); values of attributes other than the community octets are not compared",
     "ADD-PATH is not negotiated (SessionConfig::modern()/legacy() as used by all three ingress units)",
     "on malformed input acceptance and events must be equal too, with one tolerance: when an MP attribute of a family routecore parses but rotonda ignores (labelled unicast, VPN, flowspec, route target, VPLS, EVPN) has a non-empty NLRI field, the implementation may refuse what the decoder (which keeps that field opaque) accepts",
 ]
